@@ -40,5 +40,11 @@ def check(model, tier):
     typing_rules.r08_5_slice_subscripts(ctx)
     payload.r10_4_who_may_attach(ctx, rule="R08.7")
     optional_rules.r_optional_truthiness(ctx, "R08.8")
+    sqlplace.r_sort_mapping(ctx, "R08.9")
+    from ..rules import purity, structure
+    from .common import SQL_ENGINE
+
+    purity.r_engine_stateless(ctx, "R08.10", SQL_ENGINE, ("to_executable", "to_payload", "conform", "append_unary", "append_binary"))
+    structure.r17_conform(ctx, rules=("R08.11", "R08.12", "R08.13"))
     run.assume("EngineError for iteration-engine joins and for unprocessed transfers/materializations are documented refusals")
     return run
